@@ -2,6 +2,7 @@ package e3
 
 import (
 	"fmt"
+	"os"
 	"path/filepath"
 	"sort"
 	"time"
@@ -366,6 +367,14 @@ func runC10(w *core.WorkerCtx, idx int) *core.CaseResult {
 			}
 		default:
 			op.Kind = "restart"
+			if idx%4 == 1 {
+				// a shard upgraded from an old version still has that version's targets.json on its volume (kvass
+				// never deletes it); once the current store file exists the old file means nothing
+				if _, err := os.Stat(filepath.Join(dir, "kvass-shard.json")); err == nil {
+					_ = os.WriteFile(filepath.Join(dir, "targets.json"), []byte(`{"j1":[{"hash":4242,"labels":{"__address__":"legacy.example:9100","job":"j1"},"series":7,"TargetState":""}]}`), 0644)
+					res.AddStat("restarts_next_to_an_old_version_file", 1)
+				}
+			}
 			rg.close()
 			rg.srv = nil
 			if err := rg.build(nil); err != nil {
